@@ -487,5 +487,7 @@ def run(chk: Check, repo: Repo) -> None:
     deferred_state(chk, repo)
     climate(chk, repo)
     cover_fallback(chk, repo)
+    from .common_rules import override_implies_no_dpt_class
+    override_implies_no_dpt_class(chk, repo)
     chk.rule("E7 finite loop-back tables by cell evaluation of the extracted conditions; affine-map extraction over Laurent polynomials and inverse check; truncation lint; ownership census of the state attribute; dominance of the base read over the shift write")
     chk.assume("rounding / clamping to the datapoint's range is not modelled (nearest-value clause is not decided)")
